@@ -263,6 +263,157 @@ func TestVerifGenC07(t *testing.T) {
 		}
 	}
 
+	// ---- the share request: every call, anywhere in the package, of tryShareRegistrationOverAPI, of executeHTTPRequest and of
+	// a function of package http — with the function it is in, whether it is inside a loop, whether it is a `go` statement —
+	// and the number of loops in the two sharing functions
+	var calls []write // fn, callee, "loop"/"-", "go"/"-"
+	var shareLoops []string
+	for _, fn := range fnames {
+		var walk func(n ast.Node, inLoop bool)
+		goCalls := map[*ast.CallExpr]bool{}
+		ast.Inspect(funcs[fn].Body, func(n ast.Node) bool {
+			if g, ok := n.(*ast.GoStmt); ok {
+				goCalls[g.Call] = true
+			}
+			return true
+		})
+		walk = func(n ast.Node, inLoop bool) {
+			ast.Inspect(n, func(m ast.Node) bool {
+				switch x := m.(type) {
+				case *ast.ForStmt:
+					if fn == "tryShareRegistrationOverAPI" || fn == "executeHTTPRequest" {
+						shareLoops = append(shareLoops, fn)
+					}
+					if x.Init != nil {
+						walk(x.Init, inLoop)
+					}
+					if x.Cond != nil {
+						walk(x.Cond, true)
+					}
+					if x.Post != nil {
+						walk(x.Post, true)
+					}
+					walk(x.Body, true)
+					return false
+				case *ast.RangeStmt:
+					if fn == "tryShareRegistrationOverAPI" || fn == "executeHTTPRequest" {
+						shareLoops = append(shareLoops, fn)
+					}
+					walk(x.X, inLoop)
+					walk(x.Body, true)
+					return false
+				case *ast.CallExpr:
+					callee := c07gText(fset, x.Fun)
+					if callee == "tryShareRegistrationOverAPI" || callee == "executeHTTPRequest" || strings.HasPrefix(callee, "http.") {
+						l, g := "-", "-"
+						if inLoop {
+							l = "loop"
+						}
+						if goCalls[x] {
+							g = "go"
+						}
+						calls = append(calls, write{fn, callee, l, g})
+					}
+				}
+				return true
+			})
+		}
+		walk(funcs[fn].Body, false)
+	}
+
+	// ---- parseRegMessage: its return statements; the ingest worker: how it treats what parseRegMessage answers
+	var parseReturns, workerGuards []string
+	if pf, ok := funcs["RegistrationManager.parseRegMessage"]; ok {
+		ast.Inspect(pf.Body, func(n ast.Node) bool {
+			if _, isLit := n.(*ast.FuncLit); isLit {
+				return false
+			}
+			if r, ok := n.(*ast.ReturnStmt); ok {
+				parseReturns = append(parseReturns, c07gText(fset, r))
+			}
+			return true
+		})
+	} else {
+		t.Fatal("RegistrationManager.parseRegMessage not found")
+	}
+	workerCallsParse, workerIngestsAll := false, false
+	if wf, ok := funcs["RegistrationManager.startIngestThread"]; ok {
+		ast.Inspect(wf.Body, func(n ast.Node) bool {
+			switch x := n.(type) {
+			case *ast.AssignStmt:
+				if c07gText(fset, x) == "newRegs, err := rm.parseRegMessage(msg.([]byte))" {
+					workerCallsParse = true
+				}
+			case *ast.IfStmt:
+				if cond := c07gText(fset, x.Cond); cond == "err != nil" || strings.Contains(cond, "newRegs") {
+					last := "?"
+					if k := len(x.Body.List); k > 0 {
+						last = c07gText(fset, x.Body.List[k-1])
+					}
+					els := ""
+					if x.Else != nil {
+						els = " else …"
+					}
+					workerGuards = append(workerGuards, "if "+cond+" { … "+last+" }"+els)
+				}
+			case *ast.RangeStmt:
+				if c07gText(fset, x.X) == "newRegs" {
+					// for _, reg := range newRegs { if reg == nil { continue }; rm.ingestRegistration(reg) }
+					var body []string
+					for _, st := range x.Body.List {
+						body = append(body, c07gText(fset, st))
+					}
+					workerIngestsAll = strings.Join(body, "; ") == "if reg == nil { continue }; rm.ingestRegistration(reg)"
+				}
+			}
+			return true
+		})
+	} else {
+		t.Fatal("RegistrationManager.startIngestThread not found")
+	}
+
+	// ---- ingestRegistration: the statement that follows the liveness probe
+	var livenessBranch []string
+	ast.Inspect(ingest.Body, func(n ast.Node) bool {
+		blk, ok := n.(*ast.BlockStmt)
+		if !ok {
+			return true
+		}
+		for i, st := range blk.List {
+			if c07gText(fset, st) == "live, response := rm.PhantomIsLive(reg.PhantomIp.String(), reg.PhantomPort)" {
+				if i+1 < len(blk.List) {
+					if is, ok := blk.List[i+1].(*ast.IfStmt); ok {
+						last := "?"
+						if k := len(is.Body.List); k > 0 {
+							last = c07gText(fset, is.Body.List[k-1])
+						}
+						els := "no else"
+						if is.Else != nil {
+							els = "else"
+						}
+						init := ""
+						if is.Init != nil {
+							init = c07gText(fset, is.Init) + "; "
+						}
+						livenessBranch = append(livenessBranch, "if "+init+c07gText(fset, is.Cond), last, els)
+					} else {
+						livenessBranch = append(livenessBranch, c07gText(fset, blk.List[i+1]))
+					}
+				}
+				// every later use of the verdict in the block
+				for _, later := range blk.List[i+2:] {
+					ast.Inspect(later, func(m ast.Node) bool {
+						if id, ok := m.(*ast.Ident); ok && (id.Name == "live" || id.Name == "response") {
+							livenessBranch = append(livenessBranch, "later use of "+id.Name)
+						}
+						return true
+					})
+				}
+			}
+		}
+		return true
+	})
+
 	var b strings.Builder
 	fmt.Fprintf(&b, "/-! GENERATED by /verif/go/harness/C07/zz_verif_c07_gen_test.go from the non-test files of pkg/station/lib. Do not edit. -/\n")
 	fmt.Fprintf(&b, "namespace CJ.Gen.IngestWrites\n\n")
@@ -294,6 +445,25 @@ func TestVerifGenC07(t *testing.T) {
 	fmt.Fprintf(&b, "def covertWriteIndex : Int := %d\n", covertWriteIndex)
 	fmt.Fprintf(&b, "def covertWrites : List String := %s\n", c07gLeanList(covertWrites))
 	fmt.Fprintf(&b, "def covertRedefined : Bool := %v\n\n", covertRedefined)
+	fmt.Fprintf(&b, "/-- every call, anywhere in the package, of tryShareRegistrationOverAPI, of executeHTTPRequest, or of a function of package http:\n(function it is in, callee, `loop` if inside a for / range statement, `go` if it is the call of a go statement) -/\n")
+	fmt.Fprintf(&b, "def shareCalls : List (String × String × String × String) := [\n")
+	for i, w := range calls {
+		sep := ","
+		if i == len(calls)-1 {
+			sep = ""
+		}
+		fmt.Fprintf(&b, "  (%s, %s, %s, %s)%s\n", c07gLeanStr(w.fn), c07gLeanStr(w.recv), c07gLeanStr(w.field), c07gLeanStr(w.stmt), sep)
+	}
+	fmt.Fprintf(&b, "]\n")
+	fmt.Fprintf(&b, "/-- the for / range statements inside tryShareRegistrationOverAPI and executeHTTPRequest (the function, once per loop) -/\n")
+	fmt.Fprintf(&b, "def shareLoops : List String := %s\n\n", c07gLeanList(shareLoops))
+	fmt.Fprintf(&b, "/-- the return statements of parseRegMessage, in source order -/\ndef parseReturns : List String := %s\n", c07gLeanList(parseReturns))
+	fmt.Fprintf(&b, "/-- startIngestThread: it calls `newRegs, err := rm.parseRegMessage(msg.([]byte))`; its if statements on `err` / `newRegs` (condition, last\nstatement of the body); its loop over newRegs is `if reg == nil { continue }; rm.ingestRegistration(reg)` -/\n")
+	fmt.Fprintf(&b, "def workerCallsParse : Bool := %v\n", workerCallsParse)
+	fmt.Fprintf(&b, "def workerGuards : List String := %s\n", c07gLeanList(workerGuards))
+	fmt.Fprintf(&b, "def workerIngestsAll : Bool := %v\n\n", workerIngestsAll)
+	fmt.Fprintf(&b, "/-- ingestRegistration: the statement after `live, response := rm.PhantomIsLive(…)`: its condition, the last statement of its body, whether\nit has an else branch; then every later use of `live` / `response` in that block -/\n")
+	fmt.Fprintf(&b, "def livenessBranch : List String := %s\n\n", c07gLeanList(livenessBranch))
 	fmt.Fprintf(&b, "end CJ.Gen.IngestWrites\n")
 
 	dir := os.Getenv("VERIF_OUT")
